@@ -45,7 +45,7 @@ def gen_timer_scenario(rng, sid):
         lines.append("OP STEP")
     lines.append("SNAPSHOT")
     lines += gen_mc.clock_lines(skews, 40)
-    lines += ["PRED INV NONE", "PRED GOAL NOEVENTS", "PRED PRUNE DEPTHGT 12", "PRED COLLECT NONE",
+    lines += ["PRED INV NONE", "PRED GOAL NOEVENTS", "PRED PRUNE NONE", "PRED COLLECT NONE",
               "RUN BFS FULL 0 %d" % gen_mc.FUEL, "CONTINUE"]
     lines += ["OP STEP"] * 14
     feat = {"timers": True, "override": False, "clock": False, "rand_progs": False, "drop": 0.0, "dupl": 0.0, "corrupt": 0.0,
@@ -77,7 +77,7 @@ def gen_scenario(rng, sid, clock_free=True):
     out = list(prefix)
     out.append("SNAPSHOT")
     out += gen_mc.clock_lines(skews, 40)
-    out += ["PRED INV NONE", "PRED GOAL NOEVENTS", "PRED PRUNE DEPTHGT 9", "PRED COLLECT NONE",
+    out += ["PRED INV NONE", "PRED GOAL NOEVENTS", "PRED PRUNE NONE", "PRED COLLECT NONE",
             "RUN BFS FULL 0 %d" % gen_mc.FUEL]
     out.append("CONTINUE")
     for _ in range(rng.randint(3, 10)):
